@@ -22,6 +22,7 @@ func init() {
 		Run: func(c *Ctx) {
 			c.ruleSizeAppend("R-SIZE-APPEND", []string{"internal/impl", "proto", "internal/encoding/messageset"}, sizeAppendNotAnalysed, 130)
 			c.ruleTagSize("R-TAGSIZE", []string{"internal/impl"}, 3)
+			c.ruleExtLazyParity("R-EXT-LAZY-PARITY", extLazyPairs, 3)
 			c.ruleMsgLoopParity("R-MSG-LOOP-PARITY", "internal/impl.(*MessageInfo).sizePointerSlow", "internal/impl.(*MessageInfo).marshalAppendPointer")
 		},
 	})
